@@ -4,7 +4,8 @@ from __future__ import annotations
 from typing import Any, Dict, List
 
 from ..sim.gen import profile
-from .simprop import DRAIN, SimEngine, close_overlap_family, overlap_family, sweep_space
+from .simprop import (DRAIN, SimEngine, blocked_spawners_family, close_overlap_family, flush_raises_family, name_reuse_family, overlap_family, sweep_space,
+                      two_pools_family, worker_in_flush_family)
 
 FIN = [1, 1, 2, 2, 3, 4, 0, None]
 
@@ -325,5 +326,37 @@ MAKERS = {"C01": _c01, "C02": _c02, "C03": _c03, "C04": _c04, "C05": _c05, "C06"
           "C10": _c10, "C11": _c11, "C13": _c13, "C14": _c14, "C15": _c15}
 
 
+def _thin(tier: str, q: int) -> int:
+    return q if tier == "quick" else 1
+
+
+_CANCEL_TAIL = [{"op": "cancel", "pool": 0, "refs": [["any", 0], ["any", 1], ["any", 2]], "place": "inline"}]
+_NR = ("name-reuse family (a group cancelled while its spawner has work left, its name taken again within 0..1 ticks)", lambda t: name_reuse_family(_thin(t, 3)))
+_BS = ("blocked-spawners family (two requests waiting for room, one cancelled, room made, one more request)", lambda t: blocked_spawners_family(_thin(t, 2)))
+_WF = ("worker-in-flush family (a pool task suspended in flush() is cancelled by id / group / globally)", lambda t: worker_in_flush_family(_thin(t, 2)))
+_TP = ("two-pools family (a cancelled task in a slow callback in one pool, the same ids probed in the other)", lambda t: two_pools_family(_thin(t, 2)))
+_FR = ("close-overlap family restricted to flush(), followed by cancel() of every id", lambda t: close_overlap_family(_thin(t, 8), ops=("flush",), tail=_CANCEL_TAIL))
+# enumerated families that run at every seed, per property (DESIGN 10.5, round 9)
+_BSS = ("blocked-spawners family on SimpleTaskPool followed by stop(1), stop(2)",
+        lambda t: blocked_spawners_family(1, tail=[{"op": "stop", "pool": 0, "n": 1, "place": "inline"}, {"op": "tick", "k": 1}, {"op": "stop", "pool": 0, "n": 2, "place": "inline"},
+                                                   {"op": "settle"}], classes=("SimpleTaskPool",)))
+_FX = ("flush-raises family (flush() raising over a failed task while a cancelled one sits in its callback, ids probed afterwards)", lambda t: flush_raises_family(_thin(t, 3)))
+FAMILIES = {"C02": [_BS], "C03": [_TP, _FX], "C04": [_NR, _BS], "C06": [_WF, _TP, _FR, _FX], "C13": [_FX], "C07": [_NR, _WF], "C10": [_NR], "C11": [_BS, _TP], "C14": [_BSS]}
+
+
 def make(pid: str) -> SimEngine:
-    return MAKERS[pid]()
+    eng = MAKERS[pid]()
+    fams = FAMILIES.get(pid)
+    if fams:
+        base = eng._sweep
+
+        def sw(tier: str):
+            desc, cases, _ = base(tier) if base else ("", [], 0)
+            cases = list(cases)
+            descs = [desc] if desc else []
+            for d, fn in fams:
+                cases += fn(tier)
+                descs.append(d)
+            return ("; plus the ".join(descs), cases, len(cases))
+        eng._sweep = sw
+    return eng
